@@ -45,3 +45,9 @@ META.update({
    text="Every (front-end, site, occurrence, delivery) point is run deterministically and a few hundred random-timing trials on top; is_closed is checked on every clone, the consumer must end (forever stays ended, wait never blocks again), and each Pending result must have been preceded in the same call by a callback consultation answering 'nothing'.",
    note="instants = hook sites x both orders + random; the harness plays the async adapter"),
 })
+META.update({
+ "C12": dict(engine="native forked probes (+valgrind in thorough)", category="exploration",
+   technique="runtime monitoring: generated operation scripts in forked children checked step by step against a reference model (hook counts, FIONREAD, fd table, waitpid status)",
+   text="Hundreds (quick) to thousands (thorough) of scripts per exfiltrator; every rejected number in [-2,130] plus extreme integers is used as the rejected step. Found and, after the fix: commits, guards against: poisoned id table, abort in a failing constructor, double slot initialisation.",
+   note="sequential scripts (the property is about sequences); expected outcome classes are those of this kernel and glibc"),
+})
